@@ -427,6 +427,11 @@ pub fn finish(f: Finish) -> i32 {
     cov.insert("violation_sites".into(), Value::Array(vio_list));
     cov.insert("known_finding_cases".into(), json!(n_known));
     cov.insert("threads".into(), json!(run.threads));
+    if let Ok(root) = std::env::var("VERIF_ROOT") {
+        if let Ok(t) = std::fs::read_to_string(format!("{}/target/oracle.log", root)) {
+            cov.insert("reference_model_validation".into(), json!(t.lines().last().unwrap_or("").to_string()));
+        }
+    }
     if !machinery_fail.is_empty() {
         cov.insert("machinery_failures".into(), json!(machinery_fail));
     }
